@@ -124,6 +124,102 @@ func readBindings(verifDir, prop string) map[string][]bindEntry {
 	return out
 }
 
+// applyFuncRenames re-targets a contract whose function no longer exists under its name when exactly one function of the
+// same package and receiver type that was not there before declares variables of the recorded types, in the recorded order
+// (a private helper that was renamed, possibly together with some of its locals). Returns human-readable notes.
+func (p *Program) applyFuncRenames(prop string, recorded map[string][]bindEntry) []string {
+	var notes []string
+	if recorded == nil {
+		return nil
+	}
+	for _, ct := range p.allCon {
+		if ct.Kind != "func" || !hasProp(ct.Props, prop) || p.findFunc(ct) != nil {
+			continue
+		}
+		if fi, lit := p.findFuncLit(ct); fi != nil && lit != nil {
+			continue
+		}
+		old, ok := recorded[ct.PkgPath+"."+ct.Key]
+		if !ok {
+			continue
+		}
+		prefix := ""
+		if i := lastDot(ct.Key); i >= 0 {
+			prefix = ct.Key[:i+1]
+		}
+		var cands []*FuncInfo
+		for _, fi := range p.funcs {
+			if fi.Pkg == nil || fi.Pkg.PkgPath != ct.PkgPath || fi.Decl == nil {
+				continue
+			}
+			keys := contractKeys(fi.Obj)
+			short := keys[len(keys)-1]
+			fprefix := ""
+			if i := lastDot(short); i >= 0 {
+				fprefix = short[:i+1]
+			}
+			if fprefix != prefix {
+				continue
+			}
+			if _, was := recorded[ct.PkgPath+"."+short]; was {
+				continue // existed (under contract) before
+			}
+			taken := false
+			for _, k := range keys {
+				if c, ok := p.contracts[k]; ok && c.PkgPath == ct.PkgPath {
+					taken = true
+				}
+			}
+			if taken {
+				continue
+			}
+			cur := p.localsOf(fi)
+			if len(cur) != len(old) {
+				continue
+			}
+			same := true
+			for i := range cur {
+				if cur[i].Type != old[i].Type {
+					same = false
+					break
+				}
+			}
+			if same {
+				cands = append(cands, fi)
+			}
+		}
+		if len(cands) != 1 {
+			continue
+		}
+		keys := contractKeys(cands[0].Obj)
+		newKey := keys[len(keys)-1]
+		for _, k := range []string{ct.Key, ct.PkgName + "." + ct.Key} {
+			if p.contracts[k] == ct {
+				delete(p.contracts, k)
+			}
+		}
+		notes = append(notes, fmt.Sprintf("rename tolerance: %s.%s: the function is now called %s (the only new function of the package with the same receiver and the same variables by type and position)", ct.PkgName, ct.Key, newKey))
+		recorded[ct.PkgPath+"."+newKey] = old
+		ct.Key = newKey
+		for _, k := range []string{ct.Key, ct.PkgName + "." + ct.Key} {
+			if _, dup := p.contracts[k]; !dup {
+				p.contracts[k] = ct
+			}
+		}
+	}
+	sort.Strings(notes)
+	return notes
+}
+
+func lastDot(s string) int {
+	for i := len(s) - 1; i >= 0; i-- {
+		if s[i] == '.' {
+			return i
+		}
+	}
+	return -1
+}
+
 // applyRenames re-points contract identifiers whose variable was renamed. Returns human-readable notes.
 func (p *Program) applyRenames(prop string, recorded map[string][]bindEntry) []string {
 	var notes []string
